@@ -99,6 +99,8 @@ static void run_one(const vf_check *ck, const vcase *c, vres *r, int percase)
         vf_release_all();
     }
     alarm(0);
+    vf_check_redzones();
+    if (vf_n_overrun && r->status != 1) { r->status = 1; snprintf(r->sig, sizeof r->sig, "heap-overrun"); snprintf(r->msg, sizeof r->msg, "%s", vf_last_overrun); }
     if (r->status == 0 && vf_live_count() != live0) {
         /* harness bookkeeping error or a leak the check did not judge: keep the ledger clean for the next case */
         vf_release_all();
